@@ -97,51 +97,4 @@ def gamma (order : Nat) (peak : α) (width : Nat) : Except Err (List α) :=
   else if order = 0 then .error .valueError
   else .ok ((List.range width).map (gammaSample order peak width))
 
-/-! ## line protocol (Float) -/
-
-def parseKind : String → Option Kind
-  | "bartlett" => some .bartlett
-  | "blackman" => some .blackman
-  | "hamming" => some .hamming
-  | "hann" => some .hann
-  | _ => none
-
-/-- `"all"` or a comma separated index list; answers `len;bits,bits,...` -/
-def showSel (l : List Float) (sel : String) : Option String := do
-  let a := l.toArray
-  let idx ← if sel == "all" then some (List.range a.size) else parseNats sel
-  let vals ← idx.mapM fun i => if h : i < a.size then some (floatBits a[i]) else none
-  some (toString a.size ++ ";" ++ ",".intercalate vals)
-
-/-- `win <kind> <width> <sel>` -/
-def handleWin (args : List String) : Option String :=
-  match args with
-  | [k, w, sel] => do
-    let k ← parseKind k
-    let w ← w.toNat?
-    showSel (window (α := Float) k w) sel
-  | _ => none
-
-/-- `gam <order> <peak bits> <width> <sel>` -/
-def handleGamma (args : List String) : Option String :=
-  match args with
-  | [o, p, w, sel] => do
-    let o ← o.toNat?
-    let p ← floatOfBits? p
-    let w ← w.toNat?
-    match gamma (α := Float) o p w with
-    | .error .valueError => some "err:ValueError"
-    | .ok l => showSel l sel
-  | _ => none
-
-/-- `gq <p> <mu> <std>`, `h2a <hz> <rate>`, `a2h <angle> <rate>` (all IEEE bit patterns) -/
-def handleScalar (fn : String) (args : List String) : Option String := do
-  let xs ← args.mapM floatOfBits?
-  let r : Float ← match fn, xs with
-    | "gq", [p, mu, std] => some (gauss_quant_odeh_evans p mu std)
-    | "h2a", [hz, rate] => some (hertz_to_angular hz rate)
-    | "a2h", [an, rate] => some (angular_to_hertz an rate)
-    | _, _ => none
-  some (floatBits r)
-
 end PdsVerif.Model.Windows
